@@ -25,14 +25,23 @@ Record flags := mkFlags { f_always : bool; f_never : bool; f_dontdisc : bool }.
 (* handshake phases a client can be parked in, as far as the harness distinguishes them *)
 Inductive phase := PHold | PSec | PInit | PNormal.   (* PHold: newClientHook said RFB_CLIENT_ON_HOLD *)
 
-Record client := mkClient { k_rev : bool; k_phase : phase; k_open : bool;
-                            k_gone : bool  (* the peer has gone away while the client was on hold: not noticed yet *) }.
+(* a message the client has written that the server has not processed yet *)
+Inductive pmsg := MAdv | MInit (shared : bool).
+
+Record client := mkClient {
+  k_rev : bool; k_phase : phase; k_open : bool;
+  k_gone : bool;          (* the peer has hung up; the server has not noticed yet *)
+  k_minor : Z;            (* protocol minor version announced by the client *)
+  k_pmsg : option pmsg    (* pending message (security type None / ClientInit) *)
+}.
 
 Definition is_normal (c : client) : bool := match k_phase c with PNormal => true | _ => false end.
 Definition live_normal (c : client) : bool := k_open c && is_normal c.
 
-Definition close (c : client) : client := mkClient (k_rev c) (k_phase c) false (k_gone c).
-Definition set_phase (c : client) (p : phase) : client := mkClient (k_rev c) p (k_open c) (k_gone c).
+Definition close (c : client) : client := mkClient (k_rev c) (k_phase c) false (k_gone c) (k_minor c) (k_pmsg c).
+Definition set_phase (c : client) (p : phase) : client := mkClient (k_rev c) p (k_open c) (k_gone c) (k_minor c) (k_pmsg c).
+Definition set_gone (c : client) : client := mkClient (k_rev c) (k_phase c) (k_open c) true (k_minor c) (k_pmsg c).
+Definition set_pmsg (c : client) (m : option pmsg) : client := mkClient (k_rev c) (k_phase c) (k_open c) (k_gone c) (k_minor c) m.
 
 (* the condition of the outer if *)
 Definition exclusive (fl : flags) (rev shared : bool) : bool :=
@@ -75,31 +84,94 @@ Definition client_init (fl : flags) (l : list client) (i : nat) (shared : bool) 
       else l
   end.
 
+(* ---------------------------------------------------------------- the event loop
+   Events (a security-type byte, a ClientInit byte, a hang-up) may be pending on several clients
+   when rfbProcessEvents runs.  One pass (rfbCheckFds) walks the client list from its head, i.e.
+   from the NEWEST client to the oldest, and handles one pending event of every client that is
+   open and not on hold: a pending message first, the hang-up (read() = 0 -> rfbCloseClient) only
+   when no message is pending.  (If the peer has already hung up when its message is handled, the
+   server's answer cannot be written and the client is closed at that point.)  A client closed earlier in the same pass is still in the list (it
+   is reaped at the end of rfbProcessEvents) but is skipped by the client iterator. *)
+Definition is_hold (c : client) : bool := match k_phase c with PHold => true | _ => false end.
+Definition active (c : client) : bool := k_open c && negb (is_hold c).
+
+(* rfbVncAuthNone for a client that chose type None: RFB_INITIALISATION, except for the 3.889
+   client, which is initialised at once with an implicit shared ClientInit *)
+Definition handle_adv (fl : flags) (l : list client) (i : nat) (c : client) : list client :=
+  match k_phase c with
+  | PSec =>
+      if k_gone c && Z.ltb 7 (k_minor c) then update l i close    (* SecurityResult / ServerInit cannot be written *)
+      else
+      let l1 := update l i (fun c => set_phase c PInit) in
+      if Z.eqb (k_minor c) 889 then client_init fl l1 i true else l1
+  | _ => l
+  end.
+
+Definition handle_one (fl : flags) (l : list client) (i : nat) : list client :=
+  match nth_error l i with
+  | None => l
+  | Some c =>
+      if active c then
+        match k_pmsg c with
+        | Some m =>
+            let l0 := update l i (fun c => set_pmsg c None) in
+            match m with
+            | MAdv => handle_adv fl l0 i (set_pmsg c None)
+            | MInit sh =>
+                (* a peer that has already hung up: writing ServerInit fails (EPIPE on the socketpair),
+                   rfbCloseClient before the sharing decision is reached *)
+                if k_gone c then update l0 i close else client_init fl l0 i sh
+            end
+        | None => if k_gone c then update l i close else l
+        end
+      else l
+  end.
+
+(* indices n-1, ..., 0 : the list head is the newest client *)
+Fixpoint pass_from (fl : flags) (n : nat) (l : list client) : list client :=
+  match n with
+  | O => l
+  | S m => pass_from fl m (handle_one fl l m)
+  end.
+Definition pass (fl : flags) (l : list client) : list client := pass_from fl (length l) l.
+
+(* rfbProcessEvents until nothing happens: a client has at most one message and one hang-up pending *)
+Definition pump (fl : flags) (l : list client) : list client := pass fl (pass fl l).
+
 Inductive op :=
-  | OConn (rev : bool)          (* new connection, version exchanged: parked in RFB_SECURITY_TYPE *)
-  | OConnHold (rev : bool)      (* newClientHook returns RFB_CLIENT_ON_HOLD: stays in RFB_PROTOCOL_VERSION, not served *)
-  | OConnRefuse (rev : bool)    (* newClientHook returns RFB_CLIENT_REFUSE: closed at once *)
-  | ORelease (i : nat)          (* rfbStartOnHoldClient: the pending version line is processed *)
-  | OAdv (i : nat)              (* security type None chosen: RFB_INITIALISATION *)
-  | OInit (i : nat) (shared : bool)
-  | ODrop (i : nat).            (* the peer goes away *)
+  | OConn (rev : bool) (minor : Z)      (* new connection, version line processed *)
+  | OConnHold (rev : bool) (minor : Z)  (* newClientHook returns RFB_CLIENT_ON_HOLD: stays in RFB_PROTOCOL_VERSION, not served *)
+  | OConnRefuse (rev : bool)            (* newClientHook returns RFB_CLIENT_REFUSE: closed at once *)
+  | ORelease (i : nat)                  (* rfbStartOnHoldClient: the pending version line is processed *)
+  | OAdv (i : nat) (quiet : bool)       (* the client writes security type None (if it is in RFB_SECURITY_TYPE) *)
+  | OInit (i : nat) (shared : bool) (quiet : bool)   (* ... ClientInit (if it is in RFB_INITIALISATION) *)
+  | ODrop (i : nat) (quiet : bool).     (* the peer hangs up *)
+(* quiet = true: the event loop does not run after the op, the event stays pending *)
+
+(* state after the version line of a password-less screen: protocol < 3.7 has no type choice *)
+Definition phase_after_version (minor : Z) : phase := if Z.ltb minor 7 then PInit else PSec.
+
+Definition enqueue (l : list client) (i : nat) (need : phase -> bool) (m : pmsg) : list client :=
+  update l i (fun c => if k_open c && need (k_phase c) && match k_pmsg c with None => true | _ => false end
+                              && negb (k_gone c)
+                       then set_pmsg c (Some m) else c).
 
 Definition step (fl : flags) (l : list client) (o : op) : list client :=
   match o with
-  | OConn rev => l ++ [mkClient rev PSec true false]
-  | OConnHold rev => l ++ [mkClient rev PHold true false]
-  | OConnRefuse rev => l ++ [mkClient rev PHold false false]
+  | OConn rev minor => pump fl (l ++ [mkClient rev (phase_after_version minor) true false minor None])
+  | OConnHold rev minor => pump fl (l ++ [mkClient rev PHold true false minor None])
+  | OConnRefuse rev => pump fl (l ++ [mkClient rev PHold false false 8%Z None])
   | ORelease i =>
-      update l i (fun c => if k_open c && match k_phase c with PHold => true | _ => false end
-                           then (if k_gone c then close c else set_phase c PSec) else c)
-  | OAdv i =>
-      update l i (fun c => if k_open c && match k_phase c with PSec => true | _ => false end
-                           then set_phase c PInit else c)
-  | OInit i shared => client_init fl l i shared
-  | ODrop i =>
-      (* a client on hold is not read from: the server only notices once it is released *)
-      update l i (fun c => if k_open c && match k_phase c with PHold => true | _ => false end
-                           then mkClient (k_rev c) (k_phase c) true true else close c)
+      pump fl (update l i (fun c => if k_open c && is_hold c then set_phase c (phase_after_version (k_minor c)) else c))
+  | OAdv i quiet =>
+      let l1 := enqueue l i (fun p => match p with PSec => true | _ => false end) MAdv in
+      if quiet then l1 else pump fl l1
+  | OInit i shared quiet =>
+      let l1 := enqueue l i (fun p => match p with PInit => true | _ => false end) (MInit shared) in
+      if quiet then l1 else pump fl l1
+  | ODrop i quiet =>
+      let l1 := update l i (fun c => if k_open c then set_gone c else c) in
+      if quiet then l1 else pump fl l1
   end.
 
 Definition run (fl : flags) (l : list client) (ops : list op) : list client := fold_left (step fl) ops l.
